@@ -99,8 +99,11 @@ def handled_set_sites : List (String × IterArg) := [
 /-- run-dependent primitives.  `hash(path)` names the BAM that IsoQuant writes when it aligns FASTQ input itself
     (needs minimap2): an intermediate file under `aux/`, no output file contains it.
     `load_indexed_reference:uuid.uuid4` (after /repo commit eab0ef3) names the temporary file under which the FASTA index is
-    built; the file is renamed to `<reference>.fai` before anything reads it and the name reaches no output -/
-def handled_nondeterminism : List String := ["src.dataset_processor:load_indexed_reference:uuid.uuid4", "src.read_mapper:align_fasta:hash"]
+    built; the file is renamed to `<reference>.fai` before anything reads it and the name reaches no output.
+    `gtf2db:uuid.uuid4` (repair of audit2 C20-G2, fix_db_built_atomically.patch) names the temporary file under which the
+    annotation database is built; it is renamed to `<output>/<annotation>.db` before anything opens it, the name reaches no
+    output (listed ahead of the commit: the obligation is a subset test) -/
+def handled_nondeterminism : List String := ["src.dataset_processor:load_indexed_reference:uuid.uuid4", "src.gtf2db:gtf2db:uuid.uuid4", "src.read_mapper:align_fasta:hash"]
 
 /-- readers of `.assignment_id`: copy / (de)serialise, and the equality test of the loader -/
 def handled_assignment_id_readers : List String := [
